@@ -276,6 +276,50 @@ pub fn semantic_token(rng: &mut Rng) -> Option<String> {
     }
 }
 
+/// The pattern with the literal letter or digit closest to its middle exchanged for another
+/// one of the same kind (a<->b, c->a, x<->y, 1<->2, k<->m). None if there is no such literal.
+pub fn near_twin(pattern: &str) -> Option<String> {
+    let cs: Vec<char> = pattern.chars().collect();
+    let swap = |c: char| -> Option<char> {
+        Some(match c {
+            'a' => 'b',
+            'b' => 'a',
+            'c' => 'a',
+            'x' => 'y',
+            'y' => 'x',
+            '1' => '2',
+            '2' => '1',
+            'k' => 'm',
+            'm' => 'k',
+            _ => return None,
+        })
+    };
+    let mut in_braces = false;
+    let mut cands: Vec<usize> = Vec::new();
+    for (i, &c) in cs.iter().enumerate() {
+        match c {
+            '{' | '<' => in_braces = true,
+            '}' | '>' => in_braces = false,
+            _ => {}
+        }
+        if in_braces || swap(c).is_none() {
+            continue;
+        }
+        if i > 0 && matches!(cs[i - 1], '\\' | '<' | '{' | '-') {
+            continue;
+        }
+        if i + 1 < cs.len() && cs[i + 1] == '-' {
+            continue;
+        }
+        cands.push(i);
+    }
+    let mid = cs.len() / 2;
+    let i = *cands.iter().min_by_key(|&&i| if i > mid { i - mid } else { mid - i })?;
+    let mut out = cs.clone();
+    out[i] = swap(cs[i])?;
+    Some(out.into_iter().collect())
+}
+
 /// Maximal literal runs of the patterns ("cd" and "cd" in `(?<=cd)cd`, "aa" in `(?<=a)aa`).
 pub fn literal_tokens(patterns: &[&str], ascii: bool) -> Vec<String> {
     let mut toks: Vec<String> = Vec::new();
@@ -481,6 +525,15 @@ pub fn gen_world(base: u64, run: u64, profile: Profile) -> World {
         // is keyed too coarsely (by pattern text, by code point, by program shape).
         if !regexes.is_empty() && wl.chance(1, 3) {
             let src: RegexSpec = regexes[wl.usize_below(regexes.len())].clone();
+            // ... or a near-twin of the pattern itself: same length, same head and tail, one
+            // literal in the middle exchanged - the bait for caches keyed by a fingerprint of
+            // the pattern text (length, prefix, suffix, hash of a part)
+            if wl.chance(1, 3) {
+                if let Some(twin) = near_twin(&src.pattern) {
+                    regexes.push(RegexSpec { pattern: twin, flags: src.flags.clone(), exec: src.exec, input: src.input });
+                    continue;
+                }
+            }
             let mut f: Vec<char> = src.flags.chars().collect();
             let toggle = ['i', 'u', 'm', 's', 'v', 'u', 'i', 'v'][wl.usize_below(8)];
             if let Some(p) = f.iter().position(|c| *c == toggle) {
